@@ -817,7 +817,7 @@ def _leaves(tree):
 # only when the case satisfies the class's input predicate; a failing clause that cannot be attributed
 # makes the signature "unclassified" and is therefore never hidden by known_findings.json.
 CLASSES = ["U2:fiber-shape-of-all-default-nest", "U3:uncompress-of-unowned-fiber-with-format-U-above-the-leaf",
-           "Y4:fiber-yaml-drops-declared-shapes-of-nested-fibers", "Y5:deprecated-ctor-loader-rejects-rank0"]
+           "Y4:fiber-yaml-drops-declared-shapes-of-nested-fibers"]
 
 
 def _absent_below(nest, dflt, level, levels):
@@ -847,8 +847,6 @@ def _attribute(case, clause):
         if (clause == "fiber-shape" and case["kind"] == "fiber" and ("fiber_nest" in b or "nest" in b) and orig.get("depth", 0) >= 2
                 and isinstance(fs, list) and isinstance(lfs, list) and fs[:1] == lfs[:1]):
             return CLASSES[2]
-        if clause == "ctor-loads" and case["kind"] == "tensor" and orig.get("depth") == 0:
-            return CLASSES[3]
     return None
 
 
